@@ -397,6 +397,91 @@ func C18(p *ir.Program, r *report.R) {
 	}
 
 	// ---- one goroutine per direction owns the buffered transport -------------------------------------
+	// ---- one byte stream: everything is written through the buffered writer ---------------------------------------
+	// Packets are encoded into c.bufConnWriter; what is in the buffer may be the tail of a packet whose head
+	// is already on the wire. A write that goes to c.conn directly (a pong "answered right away") lands in
+	// the middle of that packet. The raw connection is handed to bufio at construction and otherwise only
+	// closed, asked for addresses, or given deadlines.
+	{
+		cf := p.Field("libs/p2p/conn", "MConnection.conn")
+		n := 0
+		var bad []string
+		for _, f := range p.Funcs {
+			if f.Pkg == nil || ir.RelPkg(f.Pkg.Pkg) != "libs/p2p/conn" || f.Blocks == nil || strings.HasSuffix(p.Pos(f.Pos()), "_test.go") {
+				continue
+			}
+			ir.Instrs(f, func(in ssa.Instruction) {
+				fa, ok := in.(*ssa.FieldAddr)
+				if !ok || ir.FieldVar(fa.X, fa.Field) != cf || fa.Referrers() == nil {
+					return
+				}
+				for _, ld := range *fa.Referrers() {
+					u, isLoad := ld.(*ssa.UnOp)
+					if !isLoad || u.Referrers() == nil {
+						continue // the store in the constructor
+					}
+					for _, use := range *u.Referrers() {
+						n++
+						okU := false
+						switch x := use.(type) {
+						case ssa.CallInstruction:
+							cn := ir.CalleeName(x)
+							// as receiver of a net.Conn method that does not move data
+							if x.Common().IsInvoke() && x.Common().Value == ssa.Value(u) {
+								switch x.Common().Method.Name() {
+								case "Close", "RemoteAddr", "LocalAddr", "SetDeadline", "SetReadDeadline", "SetWriteDeadline":
+									okU = true
+								}
+							}
+							_ = cn
+						case *ssa.MakeInterface, *ssa.ChangeInterface:
+							// converted to io.Writer / io.Reader: only for the bufio constructors
+							okU = true
+							if v, isV := use.(ssa.Value); isV && v.Referrers() != nil {
+								for _, uu := range *v.Referrers() {
+									if c2, isC := uu.(ssa.CallInstruction); !isC || !strings.HasPrefix(ir.CalleeName(c2), "bufio.New") {
+										okU = false
+									}
+								}
+							}
+						}
+						if !okU {
+							bad = append(bad, p.InstrPos(use)+": "+short(ir.RenderInstr(use), 80))
+						}
+					}
+				}
+			})
+		}
+		r.Check("K3", "conn.MConnection.conn/data-moves-only-through-the-buffered-ends", "-", len(bad) == 0 && n >= 2, fmt.Sprintf("%d uses of c.conn: closed / asked for an address / handed to bufio, never read or written directly: %v", n, bad))
+	}
+
+	// ---- channel defaults are the package defaults ----------------------------------------------------------------
+	// FillDefaults replaces a zero capacity by the package constant of that capacity. A default taken from
+	// another field (the 128 KiB receive buffer as the message capacity) makes every reactor that relies on
+	// the default drop peers on messages its own protocol allows.
+	{
+		fd := p.Func("libs/p2p/conn", "ChannelDescriptor.FillDefaults")
+		n := 0
+		ir.Instrs(fd, func(in ssa.Instruction) {
+			st, ok := in.(*ssa.Store)
+			if !ok {
+				return
+			}
+			fa, isF := st.Addr.(*ssa.FieldAddr)
+			if !isF {
+				return
+			}
+			n++
+			_, isConst := st.Val.(*ssa.Const)
+			fld := ""
+			if fv := ir.FieldVar(fa.X, fa.Field); fv != nil {
+				fld = fv.Name()
+			}
+			r.Check("K11", "conn.ChannelDescriptor.FillDefaults/default-is-a-constant:"+fld, p.InstrPos(in), isConst && ir.HasFact(ir.FactsAt(in), "eq(chDesc."+fld+",0)"), "a zero "+fld+" is replaced by a package constant: "+ir.Render(st.Val))
+		})
+		r.Check("K11", "conn.ChannelDescriptor.FillDefaults/sites", p.Pos(fd.Pos()), n >= 3, fmt.Sprintf("%d defaults", n))
+	}
+
 	// bufio.Writer/Reader are not safe for concurrent use: c.bufConnWriter is touched only by code that
 	// runs on the send goroutine, c.bufConnReader only by the receive goroutine. "Runs on goroutine G"
 	// is the greatest set of methods that are G's body or are only ever called (plainly, never as
